@@ -640,6 +640,44 @@ def _advance_counts(stmts, cursors, acc=0):
     return _advance_counts(rest, cursors, acc + k)
 
 
+def multiplier_is_a_number(ctx, rep, clause):
+    """the multiplier handed to Mod(.., <multiplier>) by the parser is a number on every path: the constant 1, or
+    int(<digits>) (which raises ValueError, re-raised as a format error, when there are no digits) -- never None or text.
+    A `^` that is not followed by digits must be a format error, not an annotation that cannot be serialized."""
+    program = ctx.program
+    f = program.func(f'{PP}:_ProFormaParser._parse_modification')
+    ctor = [n for n in walk_own(f.node) if isinstance(n, ast.Call) and isinstance(n.func, ast.Name) and n.func.id == 'Mod']
+    if len(ctor) != 1:
+        raise AnalysisError('_parse_modification: the Mod(...) construction was not found')
+    arg = ctor[0].args[1] if len(ctor[0].args) > 1 else next((kw.value for kw in ctor[0].keywords if kw.arg == 'mult'), None)
+    if arg is None:
+        raise AnalysisError('_parse_modification: Mod(...) is built without a multiplier')
+
+    def numeric(e) -> Optional[bool]:
+        if isinstance(e, ast.Constant):
+            return isinstance(e.value, int) and not isinstance(e.value, bool)
+        if isinstance(e, ast.Call) and isinstance(e.func, ast.Name) and e.func.id == 'int':
+            return True
+        if isinstance(e, ast.IfExp):
+            a, b = numeric(e.body), numeric(e.orelse)
+            return None if a is None or b is None else a and b
+        return None
+    values = [arg]
+    if isinstance(arg, ast.Name):
+        values = [a.value for a in walk_own(f.node) if isinstance(a, ast.Assign) and
+                  any(isinstance(t, ast.Name) and t.id == arg.id for t in a.targets)]
+    verdicts = [(v, numeric(v)) for v in values]
+    if not values or any(ok is None for _v, ok in verdicts):
+        raise AnalysisError('_parse_modification: a binding of the multiplier is neither a constant nor int(...): '
+                            + ', '.join(norm_stmt(v)[:40] for v, ok in verdicts if ok is None))
+    bad = [v for v, ok in verdicts if not ok]
+    ob(rep, 'EXC-terminal', f.fq, 'the multiplier handed to Mod(...) is a number on every path', not bad,
+       f'{len(values)} binding(s): constant or int(...)',
+       f'on one path the multiplier is `{norm_stmt(bad[0]) if bad else ""}`: `[X]^` without digits parses into a '
+       f'modification whose multiplier is not a number -- serialising it or asking for its mass fails with a TypeError '
+       f'instead of the string being rejected as malformed', f.loc(ctor[0]), clause)
+
+
 def char_case_progress(ctx, rep, clause):
     """scanning loops of the formula tokenizers, `while CUR < len(S)` with tests of S[CUR] against literal characters:
     for every class of the current character (each literal it is compared with, and "any other") the body is followed
@@ -918,6 +956,7 @@ def check(ctx, rep):
     handler_discipline(ctx, rep, parse_graph, 'C09c', 'parse')
     loop_progress(ctx, rep, 'C09d')
     char_case_progress(ctx, rep, 'C09d')
+    multiplier_is_a_number(ctx, rep, 'C09a')
     error_marker_bounds(ctx, rep, 'C09a')
     designed_zero(ctx, rep, 'C09e')
     deferred = reachable(an, program, ['peptacular.mass_calc:mod_mass', 'peptacular.chem.chem_calc:mod_comp',
